@@ -60,6 +60,11 @@ cdistinct = z3.Function('cdistinct', CSeq, Bool)       # pairwise distinct claus
 cmem = z3.Function('cmem', ISeq, CSeq, Bool)           # membership
 cset = z3.Function('cset', CSeq, SeqSet)               # the set of the clauses of a list
 csubsel = z3.Function('csubsel', CSeq, CSeq, Bool)     # R lists elements of F at pairwise distinct positions (random.sample)
+ifront = z3.Function('ifront', ISeq, ISeq)             # all but the last element
+ilast = z3.Function('ilast', ISeq, Int)                # the last element
+psatx = z3.Function('psatx', ISeq, Bool)               # the parity X + [b] holds under every planted assignment of the call (uninterpreted)
+valid1x = z3.Function('valid1x', Int, Int, ISeq, Bool) # X + [b]: k strictly increasing variables of 1..n, then a bit
+cvalidx = z3.Function('cvalidx', Int, Int, CSeq, Bool) # every element is valid1x and psatx
 signvecsm = z3.Function('signvecsm', Int, CSeq)         # itertools.product([-1, 1], repeat=k): all sign vectors, -1 first
 ysign = z3.Function('ysign', Int, ISeq, Int, CSeq)     # (k, domain, j): the planted-compatible clauses among the first j sign patterns over the domain
 ydom = z3.Function('ydom', Int, Int, Int, CSeq)        # (k, n, t): the same over the first t domains (k-subsets of 1..n in itertools order)
@@ -190,7 +195,7 @@ FUNCS = dict(tlen=tlen, tcoef=tcoef, tlit=tlit, tunit=tunit, tnegc=tnegc, tset=t
              ilen=ilen, iget=iget, inil=inil, isnoc=isnoc, iapp=iapp, ineg=ineg, haszero=haszero,
              maxof=maxof, minof=minof, maxabs=maxabs, lit_true=lit_true, count=count, ctrue=ctrue,
              clen=clen, cget=cget, cnil=cnil, csnoc=csnoc, capp=capp, ctake=ctake, combs=combs, sat=sat,
-             cmaxabs=cmaxabs, pow2=pow2, chaszero=chaszero, psum=psum, card2=card2, isperm=isperm, sortedperm=sortedperm, invperm=invperm, imapsub=imapsub, zpos=zpos, mpos=mpos, rnbrs=rnbrs, apseq=apseq, negunits=negunits, idxcombs=idxcombs, iflip1=iflip1, iflips=iflips, neqprefix=neqprefix, signvecs=signvecs, sprod=sprod, smul=smul, pfilter=pfilter, iofarr=iofarr, nbrs=nbrs, evar=evar, liftcls=liftcls, liftsem=liftsem, yblock=yblock, signvecsm=signvecsm, ysign=ysign, ydom=ydom, psat=psat, valid1=valid1, cvalid=cvalid, cdistinct=cdistinct, cmem=cmem, cset=cset, csubsel=csubsel, implchain=implchain, ishift=ishift, preds=preds, outdeg=outdeg, gtopo=gtopo, gsinkok=gsinkok,
+             cmaxabs=cmaxabs, pow2=pow2, chaszero=chaszero, psum=psum, card2=card2, isperm=isperm, sortedperm=sortedperm, invperm=invperm, imapsub=imapsub, zpos=zpos, mpos=mpos, rnbrs=rnbrs, apseq=apseq, negunits=negunits, idxcombs=idxcombs, iflip1=iflip1, iflips=iflips, neqprefix=neqprefix, signvecs=signvecs, sprod=sprod, smul=smul, pfilter=pfilter, iofarr=iofarr, nbrs=nbrs, evar=evar, liftcls=liftcls, liftsem=liftsem, yblock=yblock, ifront=ifront, ilast=ilast, psatx=psatx, valid1x=valid1x, cvalidx=cvalidx, signvecsm=signvecsm, ysign=ysign, ydom=ydom, psat=psat, valid1=valid1, cvalid=cvalid, cdistinct=cdistinct, cmem=cmem, cset=cset, csubsel=csubsel, implchain=implchain, ishift=ishift, preds=preds, outdeg=outdeg, gtopo=gtopo, gsinkok=gsinkok,
              ev3=ev3, evrow=evrow, rowapp=rowapp, rowsfrom=rowsfrom, dropc=dropc, dterms=dterms, dcons=dcons, tevent=tevent, cevent=cevent, dlits=dlits, dclauses=dclauses, levent=levent, gad=gad, cdist_tab=cdist_tab, cdist=cdist, cdistall=cdistall, cind=cind, satind=satind, aind=aind)
 
 
@@ -359,6 +364,29 @@ def _on_terms(terms_by_decl):
         out += [z3.Implies(k >= 0, clen(t) == k),
                 z3.Implies(z3.And(xo >= 0, yo >= 0, z3.Or(sg == 1, sg == -1)), z3.And(z3.Not(chaszero(t)), cmaxabs(t) <= zmax(xo, yo) + zmax(k, 0)))]
     # --- samplers
+    for (s_, x) in terms_by_decl.get('isnoc', []):
+        out += [ifront(isnoc(s_, x)) == s_, ilast(isnoc(s_, x)) == x]                     # Seq.lean front_last_snoc
+    for (A,) in terms_by_decl.get('ifront', []):
+        out.append(z3.Implies(ilen(A) >= 1, z3.And(A == isnoc(ifront(A), ilast(A)), ilen(ifront(A)) == ilen(A) - 1)))
+    for (k, n, A) in terms_by_decl.get('valid1x', []):
+        # Sample.lean valid1x_def: the variables part is a valid positive k-list, the last entry a bit
+        X, b = ifront(A), ilast(A)
+        jx, ix = z3.Int('j!vx'), z3.Int('i!vx')
+        out.append(valid1x(k, n, A) == z3.And(ilen(A) == k + 1, k >= 0, z3.Or(b == 0, b == 1),
+                                              _forall([jx], z3.Implies(z3.And(0 <= jx, jx < k), z3.And(1 <= iget(X, jx), iget(X, jx) <= n)), [iget(X, jx)]),
+                                              z3.ForAll([ix, jx], z3.Implies(z3.And(0 <= ix, ix < jx, jx < k), iget(X, ix) < iget(X, jx)))))
+        out.append(z3.Implies(valid1x(k, n, A), z3.And(z3.Not(haszero(X)), maxabs(X) <= zmax(n, 0), ilen(X) == k)))
+    for (k, n, L) in terms_by_decl.get('cvalidx', []):
+        out.append(z3.Implies(L == cnil, cvalidx(k, n, L)))
+        out.append(z3.Implies(z3.And(cvalidx(k, n, L), cdistinct(L)), clen(L) <= navail_x(k, n)))      # Sample.lean distinct_validx_le_card
+        if z3.is_app(L) and L.decl().name() == 'csnoc':
+            out.append(cvalidx(k, n, L) == z3.And(cvalidx(k, n, L.arg(0)), valid1x(k, n, L.arg(1)), psatx(L.arg(1))))
+        for (C_, i_) in terms_by_decl.get('cget', []):
+            if C_.eq(L):
+                out.append(z3.Implies(z3.And(cvalidx(k, n, L), 0 <= i_, i_ < clen(L)), z3.And(valid1x(k, n, cget(L, i_)), psatx(cget(L, i_)))))
+        for (R_, F_) in terms_by_decl.get('csubsel', []):
+            if F_.eq(L):
+                out.append(z3.Implies(z3.And(csubsel(R_, L), cvalidx(k, n, L)), cvalidx(k, n, R_)))
     for (k, d, j) in terms_by_decl.get('ysign', []):
         # Sample.lean ysign_zero / ysign_succ: filter of the sign patterns by the planted assignments
         c = smul(cget(signvecsm(k), j), d)
